@@ -189,7 +189,9 @@ def run(chk):
               "monitored on the corpus pair lsn_nonorth / lsn_neg_nonorth; contour following is deterministic in its inputs (mirror pairs agree to 2e-6 m)")
     chk.assume("cells touching an X-point are excluded from the magnitude comparison of mirror pairs (amplified tolerance differences); zShift / poloidal_distance of mirror pairs are not compared (they run from the other end)")
     chk.coq()
-    G = {g.name: g for g in corpus.get(tier=chk.tier) if g.ok}
+    # (+ a non-orthogonal up-down symmetric double null whose outer targets are so oblique that contours are extended to reach the wall: the leg that ENDS on the wall is the
+    # mirror image of one that STARTS on it, so the two near-identical blocks of addPointAtWallToContours are compared with each other)
+    G = {g.name: g for g in corpus.get(tier=chk.tier, extra_cfgs=[corpus.steep_cdn_cfg()]) if g.ok}
     n = 0
     # the two ends of a region are treated alike by the non-orthogonal blending (a region's start is its mirror image's end)
     n += c10.check_range_parameters(chk, prefix="mirror:")
@@ -197,7 +199,7 @@ def run(chk):
 
     def st(k):
         return stats.setdefault(k, dict(pos=0.0, mag=0.0, xpoint_line=0.0))
-    mirrors = [("lsn_35", "usn", "sn"), ("udn", "udn_m", "dn-disconnected"), ("cdn_sym", "cdn_sym", "dn-connected")]
+    mirrors = [("lsn_35", "usn", "sn"), ("cdn_nonorth_steep", "cdn_nonorth_steep", "dn-connected-nonorth-extended"), ("udn", "udn_m", "dn-disconnected"), ("cdn_sym", "cdn_sym", "dn-connected")]
     if chk.tier == "thorough":
         mirrors += [("udn2", "udn2_m", "dn-disconnected")]
     for a, b, kind in mirrors:
